@@ -229,7 +229,9 @@ func c01(c *core.Ctx, r *core.Report) {
 		sub := core.NewReport("C04", c.Tier, 0)
 		c04Explore(c, sub, T)
 		for _, o := range sub.Obls {
-			if o.Rule == "C04.A1" || o.Rule == "C04.A3" || o.Verdict == core.Undecided {
+			// (A2 / A4: the in-creation mark is there during the creation and gone after it - the stale-version check
+			// passes over holders that are still being created, so a mark that stays makes it pass over every holder)
+			if o.Rule == "C04.A1" || o.Rule == "C04.A3" || o.Rule == "C04.A2" || o.Rule == "C04.A4" || o.Verdict == core.Undecided {
 				o2 := *o
 				o2.Rule = "C01.R6"
 				o2.Construct = o.Rule + ":" + o.Construct
